@@ -4,6 +4,14 @@
 
 package gochannel
 
+// ---- wait levels (C05, C07): what a thread may block on while it holds what ----
+// Locks are taken in this order; Close waits for the subscriptions' tokens with only closedLock held; a blocking Publish
+// waits, with the topic held, for the dispatcher's signal, the dispatcher for its senders, a sender for its subscription's
+// sending lock and then for the subscription's closing signal, and whoever has to give that signal gives it before it
+// takes any lock. The Pub/Sub's own closing signal is on top: Close gives it before it waits for anything.
+
+//@ waitorder FanOut.subscribedLock < GoChannel.closedLock < GoChannel.subscribersWg < GoChannel.subscribersLock < GoChannel.subscribersByTopicLock < GoChannel.persistedMessagesLock < dispatchDone < dispatchWg < subscriber.sending < subscriber.closing < GoChannel.closing
+
 // ---- fan-out (C17) ----
 
 //@ type FanOut
@@ -12,6 +20,7 @@ package gochannel
 //@   invariant f.subscribedTopics != nil [mon:subscribedLock:table-exists]
 
 //@ func (*FanOut).AddSubscription
+//@   ghost waits FanOut.subscribedLock
 //@   ghost atomic
 //@   requires f != nil && f.internalRouter != nil && f.internalRouter.handlersLock != nil && f.internalRouter.handlersWg != nil
 //@   ensures old(has(f.subscribedTopics, topic)) ==> ncalls(ADDH) == old(ncalls(ADDH)) [already-subscribed-topics-are-not-added-twice]
@@ -40,6 +49,8 @@ package gochannel
 //@   invariant gf(lastSent, s) == nil || gf(lastSent, s).ackSentType != 0 || closed(s.closing) [mon:sending:at-most-one-unsettled-delivery-unless-closing]
 
 //@ func (*subscriber).Close
+//@   ghost waits subscriber.sending
+//@   ghost obliged s.closing
 //@   requires s != nil && s.closing != nil && (!s.closed ==> !closed(s.closing))
 //@   ghost sole-writer s.closed
 //@   nopanic
@@ -48,6 +59,7 @@ package gochannel
 //@   modifies s.closed, closed(s.closing), closed(s.outputChannel)
 
 //@ func (*subscriber).sendMessageToSubscriber
+//@   ghost waits subscriber.sending
 //@   ghost label STS
 //@   requires s != nil && msg != nil && s.ctx != nil
 //@   ghost strong gf(lastSent, s)
@@ -91,6 +103,7 @@ package gochannel
 //@   invariant forall t string, i int :: has(g.persistedMessages, t) && 0 <= i && i < len(g.persistedMessages[t]) ==> g.persistedMessages[t][i] != nil [mon:persistedMessagesLock:persisted-entries-are-messages]
 
 //@ func (*GoChannel).isClosed
+//@   ghost waits GoChannel.closedLock
 //@   ghost atomic
 //@   requires g != nil
 //@   nopanic
@@ -129,6 +142,8 @@ package gochannel
 //@   ensures result.subscribers != nil && len(result.subscribers) == 0 && result.persistedMessages != nil && len(result.persistedMessages) == 0 && wg(result.subscribersWg) == 0 [no-subscribers-no-persisted-messages]
 
 //@ func (*GoChannel).Close
+//@   ghost waits GoChannel.closedLock
+//@   ghost obliged g.closing @lock:g.closedLock
 //@   ghost joins-all g.subscribersWg: (*GoChannel).Subscribe$1
 //@   requires g != nil && g.logger != nil
 //@   assert @lock:g.persistedMessagesLock: forall s *subscriber :: mark(wgpending, wgref(g.subscribersWg), s) ==> s.closed && closed(s.outputChannel) [when-the-wait-returns-every-subscription-that-ever-took-a-token-has-its-output-channel-closed]
@@ -138,12 +153,16 @@ package gochannel
 //@   modifies g.closed, closed(g.closing), g.persistedMessages
 
 //@ func (*GoChannel).waitForAckFromSubscribers
+//@   ghost waits dispatchDone
+//@   ghost waitclass ackedByConsumer = dispatchDone
 //@   requires g != nil && g.logger != nil && msg != nil && g.closing != nil && closeonly(ackedByConsumer)
 //@   nopanic
 //@   ensures closed(ackedByConsumer) || closed(g.closing) [returns-only-after-all-subscribers-settled-or-the-pubsub-is-closing]
 //@   modifies nothing
 
 //@ func (*GoChannel).sendMessage$1$1
+//@   ghost waits subscriber.sending
+//@   ghost waitclass wg = dispatchWg
 //@   ghost consumes-wg wg
 //@   requires subscriber != nil && message != nil && subscriber.ctx != nil && wg != nil
 //@   nopanic
@@ -152,6 +171,9 @@ package gochannel
 //@   gives @wgdone:wg: mark(acked, subscriber, message) || subscriber.closed || closed(subscriber.closing) [reports-completion-only-when-its-delivery-was-acked-or-the-subscription-is-closing]
 
 //@ func (*GoChannel).sendMessage$1
+//@   ghost waits dispatchWg
+//@   ghost waitclass wg = dispatchWg
+//@   ghost waitclass ackedBySubscribers = dispatchDone
 //@   ghost owns ackedBySubscribers
 //@   ghost joins wg: (*GoChannel).sendMessage$1$1
 //@   requires message != nil && ackedBySubscribers != nil && !closed(ackedBySubscribers) && closeonly(ackedBySubscribers)
@@ -181,6 +203,7 @@ package gochannel
 //@ spec copyof(c *message.Message, m *message.Message) bool := c != nil && c != m && c.UUID == m.UUID && c.Payload == m.Payload && sameMetadata(c.Metadata, m.Metadata)
 
 //@ func (*GoChannel).Publish
+//@   ghost waits GoChannel.closedLock
 //@   requires g != nil && g.logger != nil
 //@   requires forall i int :: 0 <= i && i < len(messages) ==> messages[i] != nil
 //@   nopanic
@@ -198,6 +221,7 @@ package gochannel
 //@   inv loop 2: g.config.BlockPublishUntilSubscriberAck ==> (forall j int :: 0 <= j && j <= rangeindex ==> closed(sret(SM, 0, old(ncalls(SM)) + j)) || closed(g.closing)) [waited-for-each-so-far]
 
 //@ func (*GoChannel).Subscribe$1
+//@   ghost waits GoChannel.subscribersLock
 //@   ghost consumes-wg g.subscribersWg as s
 //@   gives @wgdone:g.subscribersWg: s.closed && closed(s.outputChannel) && closed(s.closing) [returns-its-token-only-after-its-subscription-was-closed]
 //@   ghost sole-writer s.closed
@@ -213,6 +237,8 @@ package gochannel
 //@   modifies s.closed, closed(s.closing), closed(s.outputChannel), map(g.subscribers)
 
 //@ func (*GoChannel).Subscribe$2
+//@   ghost waits GoChannel.persistedMessagesLock
+//@   ghost waitclass unboxptr(subLock, "sync.Mutex") = GoChannel.subscribersByTopicLock
 //@   ghost holds g.subscribersLock
 //@   ghost holds unboxptr(subLock, "sync.Mutex")
 //@   ghost quiescent g.persistedMessages [publishers-need-the-subscribers-lock-held-here-and-Close-clears-the-log-only-after-every-subscription-was-torn-down]
@@ -228,6 +254,7 @@ package gochannel
 //@   modifies map(g.subscribers)
 
 //@ func (*GoChannel).Subscribe
+//@   ghost waits GoChannel.closedLock
 //@   ghost set home(s) = g @go:(*GoChannel).Subscribe$1
 //@   ghost set topic(s) = topic @go:(*GoChannel).Subscribe$1
 //@   ghost set promised(s) = true @go:(*GoChannel).Subscribe$1
